@@ -244,10 +244,51 @@ type TypeErrors = Vec<Option<TypeError>>;
 pub(crate) struct TopLevelTypes<'a> {
     pub(crate) struct_names: HashSet<&'a String>,
     pub(crate) enum_names: HashSet<&'a String>,
+    pub(crate) const_types: &'a HashMap<String, Type>,
+}
+
+impl TopLevelTypes<'_> {
+    /// Array sizes in types must be `usize` constants (or const exprs built from them).
+    fn check_array_size(&self, ConstExpr(size, meta): &ConstExpr) -> Result<(), TypeErrors> {
+        let usize_ty = Type::Unsigned(UnsignedNumType::Usize);
+        let actual = match size {
+            ConstExprEnum::NumUnsigned(_, UnsignedNumType::Usize | UnsignedNumType::Unspecified) => {
+                return Ok(());
+            }
+            ConstExprEnum::ExternalValue { party, identifier } => {
+                // values of other parties are only available through a `const` definition
+                let e = TypeErrorEnum::UnknownIdentifier(format!("{party}::{identifier}"));
+                return Err(vec![Some(TypeError::new(e, *meta))]);
+            }
+            ConstExprEnum::Max(args) | ConstExprEnum::Min(args) => {
+                return args.iter().try_for_each(|arg| self.check_array_size(arg));
+            }
+            ConstExprEnum::Add(lhs, rhs) | ConstExprEnum::Sub(lhs, rhs) => {
+                self.check_array_size(lhs)?;
+                return self.check_array_size(rhs);
+            }
+            ConstExprEnum::ConstExprIdent(ident) => match self.const_types.get(ident) {
+                Some(ty) if ty == &usize_ty => return Ok(()),
+                Some(ty) => ty.clone(),
+                None => {
+                    let e = TypeErrorEnum::UnknownIdentifier(ident.clone());
+                    return Err(vec![Some(TypeError::new(e, *meta))]);
+                }
+            },
+            ConstExprEnum::True | ConstExprEnum::False => Type::Bool,
+            ConstExprEnum::NumUnsigned(_, ty) => Type::Unsigned(*ty),
+            ConstExprEnum::NumSigned(_, ty) => Type::Signed(*ty),
+        };
+        let e = TypeErrorEnum::UnexpectedType {
+            expected: usize_ty,
+            actual,
+        };
+        Err(vec![Some(TypeError::new(e, *meta))])
+    }
 }
 
 impl Type {
-    fn as_concrete_type(&self, types: &TopLevelTypes) -> Result<Type, TypeErrors> {
+    fn as_concrete_type(&self, types: &TopLevelTypes, meta: MetaInfo) -> Result<Type, TypeErrors> {
         let ty = match self {
             Type::Bool => Type::Bool,
             Type::Unsigned(n) => Type::Unsigned(*n),
@@ -255,27 +296,30 @@ impl Type {
             Type::Fn(args, ret) => {
                 let mut concrete_args = Vec::with_capacity(args.len());
                 for arg in args.iter() {
-                    concrete_args.push(arg.as_concrete_type(types)?);
+                    concrete_args.push(arg.as_concrete_type(types, meta)?);
                 }
-                let ret = ret.as_concrete_type(types)?;
+                let ret = ret.as_concrete_type(types, meta)?;
                 Type::Fn(concrete_args, Box::new(ret))
             }
             Type::Array(elem, size) => {
-                let elem = elem.as_concrete_type(types)?;
+                let elem = elem.as_concrete_type(types, meta)?;
                 Type::Array(Box::new(elem), *size)
             }
             Type::ArrayConst(elem, size) => {
-                let elem = elem.as_concrete_type(types)?;
+                let elem = elem.as_concrete_type(types, meta)?;
+                let size_expr = ConstExprEnum::ConstExprIdent(size.clone());
+                types.check_array_size(&ConstExpr(size_expr, meta))?;
                 Type::ArrayConst(Box::new(elem), size.clone())
             }
             Type::ArrayConstExpr(elem, size_expr) => {
-                let elem = elem.as_concrete_type(types)?;
+                let elem = elem.as_concrete_type(types, meta)?;
+                types.check_array_size(size_expr)?;
                 Type::ArrayConstExpr(Box::new(elem), size_expr.clone())
             }
             Type::Tuple(fields) => {
                 let mut concrete_fields = Vec::with_capacity(fields.len());
                 for field in fields.iter() {
-                    concrete_fields.push(field.as_concrete_type(types)?);
+                    concrete_fields.push(field.as_concrete_type(types, meta)?);
                 }
                 Type::Tuple(concrete_fields)
             }
@@ -362,10 +406,6 @@ impl UntypedProgram {
         let mut enum_names = HashSet::with_capacity(self.enum_defs.len());
         struct_names.extend(self.struct_defs.keys());
         enum_names.extend(self.enum_defs.keys());
-        let top_level_defs = TopLevelTypes {
-            struct_names,
-            enum_names,
-        };
         let mut const_deps: HashMap<String, HashMap<String, (Type, MetaInfo)>> = HashMap::new();
         let mut const_types = HashMap::with_capacity(self.const_defs.len());
         let mut const_defs = HashMap::with_capacity(self.const_defs.len());
@@ -457,12 +497,17 @@ impl UntypedProgram {
                 const_types.insert(const_name.clone(), const_def.ty.clone());
             }
         }
+        let top_level_defs = TopLevelTypes {
+            struct_names,
+            enum_names,
+            const_types: &const_types,
+        };
         let mut struct_defs = HashMap::with_capacity(self.struct_defs.len());
         for (struct_name, struct_def) in self.struct_defs.iter() {
             let meta = struct_def.meta;
             let mut fields = Vec::with_capacity(struct_def.fields.len());
             for (name, ty) in struct_def.fields.iter() {
-                match ty.as_concrete_type(&top_level_defs) {
+                match ty.as_concrete_type(&top_level_defs, meta) {
                     Ok(ty) => fields.push((name.clone(), ty)),
                     Err(e) => errors.extend(e),
                 }
@@ -479,7 +524,7 @@ impl UntypedProgram {
                     Variant::Tuple(variant_name, variant_fields) => {
                         let mut fields = Vec::with_capacity(variant_fields.len());
                         for field in variant_fields.iter() {
-                            match field.as_concrete_type(&top_level_defs) {
+                            match field.as_concrete_type(&top_level_defs, meta) {
                                 Ok(field) => fields.push(field),
                                 Err(e) => errors.extend(e),
                             }
@@ -564,7 +609,7 @@ impl UntypedFnDef {
             } else {
                 param_identifiers.insert(param.name.clone());
             }
-            match param.ty.as_concrete_type(top_level_defs) {
+            match param.ty.as_concrete_type(top_level_defs, self.meta) {
                 Ok(ty) => {
                     env.let_in_current_scope(
                         param.name.clone(),
@@ -588,7 +633,7 @@ impl UntypedFnDef {
         env.pop();
 
         match body {
-            Ok((mut body, _)) => match self.ty.as_concrete_type(top_level_defs) {
+            Ok((mut body, _)) => match self.ty.as_concrete_type(top_level_defs, self.meta) {
                 Ok(ret_ty) => {
                     if let Some(StmtEnum::Expr(ret_expr)) = body.last_mut().map(|s| &mut s.inner) {
                         if let Err(e) = check_type(ret_expr, &ret_ty) {
@@ -673,7 +718,7 @@ impl UntypedStmt {
                 match binding.type_check(top_level_defs, env, fns, defs) {
                     Ok(mut binding) => {
                         if let Some(ty) = ty {
-                            let ty = ty.as_concrete_type(top_level_defs)?;
+                            let ty = ty.as_concrete_type(top_level_defs, meta)?;
                             check_type(&mut binding, &ty)?;
                         }
                         let pattern =
@@ -698,7 +743,7 @@ impl UntypedStmt {
                         // the identifier as unknown:
                         env.let_in_current_scope(identifier.clone(), (None, Mutability::Mutable));
                         if let Some(ty) = ty {
-                            let ty = ty.as_concrete_type(top_level_defs)?;
+                            let ty = ty.as_concrete_type(top_level_defs, meta)?;
                             check_type(&mut binding, &ty)?;
                         }
                         fn constrain_to_i32(binding: &mut Expr<Type>) -> Result<(), TypeErrors> {
@@ -1355,7 +1400,7 @@ impl UntypedExpr {
                 }
             }
             ExprEnum::Cast(ty, expr) => {
-                let ty = ty.as_concrete_type(top_level_defs)?;
+                let ty = ty.as_concrete_type(top_level_defs, meta)?;
                 let expr = expr.type_check(top_level_defs, env, fns, defs)?;
                 expect_bool_or_num_type(&expr.ty, meta)?;
                 expect_bool_or_num_type(&ty, meta)?;
